@@ -199,7 +199,7 @@ R.contract(
         "(declared[k] > 0 or trunc(psum(weights, len(weights)) * 100000) == 0))",
     },
     modifies=["self.random.*"],
-    props=["C19", "C01"],
+    props=["C19", "C01", "C10"],
     note="C19, second half: the chosen production has a positive declared weight, unless the total effective weight is below the "
     "chooser's resolution of 1e-5 (stated over the function's own `declared` / `weights` lists)",
 )
